@@ -71,6 +71,14 @@ Theorem C32_agg_sound_partial : forall F f0 f1 fadd fmul fsub fopp feqb,
 Proof. exact sgb_agg_sound_partial. Qed.
 Print Assumptions C32_agg_sound_partial.
 
+(* chain.VerifyTickets and miner ValidateTransactions test only the error of Verify() and ignore
+   its bool: since a failed comparison returns (false, error), the callers accept exactly when the
+   verdict is AgAccept (a (false, nil) return would be taken for success) *)
+Theorem C32_callers_err_only_agree : forall v : ag_verdict,
+  ag_caller_accepts (ag_go_result v) = match v with AgAccept => true | _ => false end.
+Proof. exact ag_caller_view_agrees. Qed.
+Print Assumptions C32_callers_err_only_agree.
+
 (* Non-vacuity over Z_r: three valid signatures in batches of 2 are accepted; corrupting one is
    rejected; the cancelling pair is accepted *)
 Example C32_example :
